@@ -392,7 +392,16 @@ udp_remove_pipe(udp_pipe *p)
 		udp_close_gap(ep, key);
 	}
 	if (p->state < PIPE_CONN_DONE) {
+		nni_aio *aio;
 		nni_list_node_remove(&p->node);
+		// A dialer's connect request waits for this pipe and no
+		// other: if the pipe goes away before it was matched (the
+		// peer refused or disconnected) nothing else completes it.
+		if (ep->dialer &&
+		    ((aio = nni_list_first(&ep->connaios)) != NULL)) {
+			nni_aio_list_remove(aio);
+			nni_aio_finish_error(aio, NNG_ECONNREFUSED);
+		}
 		nni_pipe_rele(p->npipe);
 	}
 }
